@@ -39,9 +39,11 @@ PROP = {
         # a read and a write in flight on one descriptor at poller level (the second interest must not replace the first), and reads
         # that complete with an error while the stream is closing (components of C01 and C08)
         RUN_LOOP_SCENARIOS, RUN_WSSTREAM_SMALL],
-    "keys": ["wsconc.*", "wshandshake.bytes-after-blank-line", "loop.operation-never-completed-although-ready", "loop.callback-twice",
+    "keys": ["wsconc.*", "wshandshake.bytes-after-blank-line", "wshandshake.rehandshake", "loop.operation-never-completed-although-ready", "loop.callback-twice",
              "wsstream.state", "wsstream.hang", "wsstream.delivery"],
-    "direct": [{"component": "wsconc", "timeout": 900}],
+    "direct": [{"component": "wsconc", "timeout": 900},
+               # two asynchronous writes back to back in a second session of a Stream whose first session ended with a failed write
+               {"component": "wshandshake", "args": ["only=second-session"], "keys": ["wshandshake.rehandshake"], "timeout": 300}],
     "rule": "scripts = one client websocket.Stream attached (hook VerifAttach) to a real sonic.AsyncAdapter over a real loopback TCP "
             "connection whose other end is a std-library connection driven by the harness (independent RFC 6455 encoder for what the peer "
             "sends, independent parser for everything the client writes); application calls AsyncNextFrame / AsyncNextMessage / AsyncWrite "
